@@ -2349,7 +2349,7 @@ func init() {
 		"C14": " Matching methods of *regexp.Regexp are called only from funcMatch or functions only it calls (R-C14-findsingle).",
 		"C15": " Every VM clause that intercepts an error lets *HaltError through first (R-C15-haltthrough); encoders are per use (R-C12-encoderfresh). The status recorded by the input loop is always the current error itself (R-C15-haltstatus); a failed slurp stays failed (R-C16-sticky).",
 		"C16": " A reader that may be stdin is closed only under a test that it is not stdin (R-C16-stdinclose); nothing reachable from slurpFile reads the input-format flags (R-C16-slurpjson). The query file's text is used as read (R-C16-fileverbatim); no stale copy of the top of the --stream state stack is read after a push (R-C16-staletop).",
-		"C17": " On every path of Lex/scanString returning a multi-byte kind l.token is assigned in that call (R-C17-tokenfresh); every stored token is a slice of the source or a constant (R-C17-tokensource); functions reading with (*json.Decoder).Token reconcile its offset convention with Decode's (R-C17-tokenoffset; value errors under --stream: known finding D21b). Positions counted in characters by a dependency are converted to bytes before the caret computation (R-C17-charindex).",
+		"C17": " On every path of Lex/scanString returning a multi-byte kind l.token is assigned in that call (R-C17-tokenfresh); every stored token is a slice of the source or a constant (R-C17-tokensource); functions reading with (*json.Decoder).Token reconcile its offset convention with Decode's (R-C17-tokenoffset; D21, D21b). Positions counted in characters by a dependency are converted to bytes before the caret computation (R-C17-charindex).",
 		"C19": " The closure an option constructor returns writes no captured local of the constructor (R-C19-optioncapture).",
 		"C20": " optimizeTailRec pushes at every opscope and pops at every opret (R-C20-pcsbalance); the frame-release decision has one site (R-C20-limitowner). In opscope env.offset is read only after the frame-replacing popscope (R-C20-scopeorder); env.offset is part of the fork snapshot (R-C01-forkcover).",
 	}
